@@ -15,4 +15,17 @@ AreaOK(r, idx, gn, gd, K4, n) ==
   LET T == ApaFoldSeqLeft(LAMBDA a, i : a + Term(r, i), 0, idx)
       S == ApaFoldSeqLeft(LAMBDA a, i : a + AbsM(Term(r, i)), 0, idx) IN
   AbsM(2 * gn * K4 - T * gd) * 4503599627370496 <= (n + 8) * S * gd
+\* Length(): the exact length is a sum of square roots; the orchestrator supplies, for every edge i, a WITNESS s[i] =
+\* floor(sqrt(D_i * M2)) (D_i = squared length of edge i in the scaled integers, M2 = M * M a power of four that gives the root
+\* 64 more bits); the specification CHECKS every witness (s^2 <= D * M2 < (s+1)^2) and then demands
+\* | Length * K * M - sum s | <= (n + 8) * 2^-52 * sum s + n   (one summation pass; the n accounts for the floors),
+\* K = 2^k the scale of the coordinates, got = gn / gd.
+\* @type: (Seq(Seq(Int)), Int) => Int;
+SqLen(r, i) == (r[i][1] - r[i-1][1]) * (r[i][1] - r[i-1][1]) + (r[i][2] - r[i-1][2]) * (r[i][2] - r[i-1][2])
+\* @type: (Seq(Seq(Int)), Seq(Int), Seq(Int), Int, Int, Int, Int, Int) => Bool;
+LengthOK(r, idx, s, gn, gd, K, M, n) ==
+  LET S == ApaFoldSeqLeft(LAMBDA a, i : a + s[i], 0, idx) IN
+  /\ \A j \in DOMAIN idx :
+        LET i == idx[j] IN s[i] >= 0 /\ s[i] * s[i] <= SqLen(r, i) * M * M /\ SqLen(r, i) * M * M < (s[i] + 1) * (s[i] + 1)
+  /\ AbsM(gn * K * M - S * gd) * 4503599627370496 <= ((n + 8) * S + n * 4503599627370496) * gd
 ====
